@@ -205,8 +205,7 @@ def classify_failure(l, table, code, info):
         if ep == "prof_stats" and tb in ("profiles", "profiles_series") and cn in ("no-ts-lower", "no-ts-upper", "no-date-lower"):
             return "profile-stats-whole-tables"
         return None
-    if ep.startswith("loki_") and tb == "time_series" and cn in ("no-date-lower", "no-type") and 100 in info:
-        return "label-filter-series-scan-unbounded"
+    # (label-filter-series-scan-unbounded - the time_series read of SimpleLabelFilterPlanner - was repaired in /repo: such a failure is a violation again)
     return None
 
 
@@ -277,8 +276,7 @@ def run_harness(ck, args, name):
     return [json.loads(x) for x in open(outp)]
 
 
-ALL_FINDINGS = ["tempo-tags-without-window", "trace-by-id-without-window", "profile-stats-whole-tables",
-                "label-filter-series-scan-unbounded"]
+ALL_FINDINGS = ["tempo-tags-without-window", "trace-by-id-without-window", "profile-stats-whole-tables"]
 
 
 def report_known(ck, known, listed):
